@@ -2,6 +2,7 @@ package main
 
 import (
 	"fmt"
+	"os"
 	"reflect"
 	"sort"
 	"strconv"
@@ -175,3 +176,5 @@ func canonRes(s string, unordered bool) string {
 	}
 	return "ok " + sortedList(s[3:])
 }
+
+func osWriteFile(name string, data []byte) error { return os.WriteFile(name, data, 0o644) }
